@@ -35,6 +35,10 @@ static std::string get_readable_ip_address(std::string& wire_ip, bool ipv6)
         buflen = INET_ADDRSTRLEN + 4;
     }
 
+    // inet_ntop() reads 4 (IPv4) or 16 (IPv6) bytes: anything shorter isn't an address in wire format
+    if (wire_ip.size() < (ipv6 ? 16u : 4u))
+        return wire_ip;
+
     char addrBuf[buflen];
     auto ret = inet_ntop(ipv, wire_ip.data(), addrBuf, sizeof(addrBuf));
 
